@@ -151,7 +151,7 @@ func TestStress_ConcurrentRollupJobsIntoOneTargetFamily(t *testing.T) {
 		p.Families = append(p.Families, famPos{Date: "2023-05-17", Hour: 10 + h, Time: ft + int64(h)*hour})
 	}
 	caseCounter++
-	e := &env{t: t, p: p, dir: dir, classes: map[string]bool{}, db: fmt.Sprintf("%s%d", dbName, caseCounter), countFiles: true}
+	e := &env{t: t, p: p, dir: dir, dirs: []string{dir}, classes: map[string]bool{}, db: fmt.Sprintf("%s%d", dbName, caseCounter), countFiles: true, compacted: map[string]int{}}
 	defer func() {
 		if e.n != nil {
 			e.closeNode()
@@ -173,7 +173,111 @@ func TestStress_ConcurrentRollupJobsIntoOneTargetFamily(t *testing.T) {
 		}
 		e.write(pts, false)
 		e.flush(nil)
-		e.rollup(step{Kind: "rollup", Force: true})
+		e.rollup(step{Kind: "rollup", Force: true}, "rollup")
 	}
 	e.checkTargets("after the last round", e.rolledFiles)
+}
+
+// ---- failed manifest writes inside a rollup job ----------------------------------------------------
+//
+// Two genuine defects found by the I/O-fault class of TestRollup (step.Fault): the write of ONE
+// manifest record fails (I/O error, disk full; the record is not written, the process lives on)
+// and the job is retried by the next rollup. Both came from ignoring the result of
+// family.commitEditLog; both are repaired in /repo (the diffs are kept next to this file).
+//
+//  1. Source commit (kv/family_rollup.go rollup(): `f.commitEditLog(editLog)`, result ignored):
+//     the delete-rollup-file records were not committed, the source family kept listing the files,
+//     but the job went on and committed the reference clean-up in the target families. Nothing then
+//     said that the files were merged already: the next job merged them again, every sum doubled,
+//     every cell stored twice. Fixed by cf89614 (proposed_fix_rollup_source_commit_error_ignored.diff).
+//  2. Target commit (kv/compact_job.go installCompactionResults(): `c.family.commitEditLog(...)`,
+//     result ignored, mergeCompaction returned nil): the rolled-up output and its reference records
+//     were not committed, yet doRollupWork reported success, the source family committed "rolled up"
+//     for the interval and the output table was deleted as obsolete: the points of those source files
+//     never reached the target interval. Fixed by 36e355d (proposed_fix_rollup_target_commit_error_ignored.diff).
+//
+// The tests below fail when one of the defects is back in the tree.
+
+// tryPlan runs a fixed plan and returns the first failure message ("" = the property held).
+func tryPlan(t *testing.T, p *plan) (msg string) {
+	rec := &recTB{inner: t}
+	defer func() {
+		if r := recover(); r != nil {
+			if _, ok := r.(softAbort); !ok {
+				panic(r)
+			}
+			msg = rec.msg
+		}
+	}()
+	runPlan(rec, p)
+	return rec.msg
+}
+
+func faultRegression(t *testing.T, sig, fault, what string) {
+	ft := int64(1684317600000) // 2023-05-17 10:00 UTC
+	a := point{Fam: 0, Metric: 0, Series: 0, TS: ft + 50*sec, Vals: []fv{{F: 0, K: 8}}}
+	b := point{Fam: 0, Metric: 0, Series: 0, TS: ft + 70*sec, Vals: []fv{{F: 0, K: 16}}}
+	p := &plan{Source: 10 * sec, Month: 5 * minute, Metrics: [][]int{{0}}, NSeries: 1,
+		Families: []famPos{{Date: "2023-05-17", Hour: 10, Time: ft}},
+		Steps: []step{
+			{Kind: "write", Points: []point{a}}, {Kind: "flush"},
+			{Kind: "rollup", Fault: fault}, // one manifest write of the job fails
+			{Kind: "write", Points: []point{b}}, {Kind: "flush"},
+			{Kind: "rollup"}, {Kind: "rollup"}, // the retry, and once more
+		}}
+	if msg := tryPlan(t, p); msg != "" {
+		t.Fatalf("%s (%s): %s", what, sig, msg)
+	}
+}
+
+func TestRegression_RollupSourceCommitErrorIgnored(t *testing.T) {
+	faultRegression(t, sigSourceCommitErrorIgnored, "source",
+		"a failed source commit of a rollup job is ignored, the references are cleaned all the same and the retried job merges the files again")
+}
+
+func TestRegression_RollupTargetCommitErrorIgnored(t *testing.T) {
+	faultRegression(t, sigTargetCommitErrorIgnored, "target1",
+		"a failed target commit of a rollup job is ignored, the source family marks the files as rolled up and the target never gets their points")
+}
+
+// TestRegression_CrashInWindowThenNewFileThenRetry: the shape the crash continuation of TestRollup
+// is built around, as a plain test (holds on this tree): file A is merged into the target, the
+// process dies before the source family acknowledged it, restart, file B is flushed into the same
+// source family, the retried job is asked for {A, B}, must merge only B - and dies again in the
+// same window; after the second retry (and a compaction of the target in between) every slot
+// holds A and B exactly once.
+func TestRegression_CrashInWindowThenNewFileThenRetry(t *testing.T) {
+	ft := int64(1684317600000) // 2023-05-17 10:00 UTC
+	pt := func(off int64, k int) point {
+		return point{Fam: 0, Metric: 0, Series: 0, TS: ft + off*sec, Vals: []fv{{F: 0, K: k}, {F: 2, K: k}}}
+	}
+	p := &plan{Source: 10 * sec, Month: 5 * minute, Year: 2 * hour, Metrics: [][]int{{0, 2}}, NSeries: 1,
+		Families: []famPos{{Date: "2023-05-17", Hour: 10, Time: ft}},
+		Steps: []step{
+			{Kind: "write", Points: []point{pt(50, 8), pt(310, 3)}}, {Kind: "flush"},
+			{Kind: "rollup", Crash: "beforeSourceCommit", Restarts: 2},
+			{Kind: "write", Points: []point{pt(70, 16), pt(50, 1)}}, {Kind: "flush"},
+			{Kind: "rollup", Crash: "beforeSourceCommit", Restarts: 1},
+			{Kind: "compactTarget", Target: 2},
+			{Kind: "write", Points: []point{pt(90, 5)}}, {Kind: "flush"},
+			{Kind: "rollup"}, {Kind: "rollup"},
+		},
+		Queries: []qspec{{Target: 0, Metric: 0, Field: 0, Fam: 0}}}
+	classes, _ := runPlan(t, p)
+	need := []string{
+		"crash image in the window target commit .. source commit (files merged, still listed by the source)",
+		"after a crash in the window: new file flushed into the SAME source family before the retry",
+		"retry: a job is asked for {already merged, new} files of one interval (must merge only the new ones)",
+		"retry: ... and the process dies again inside that job",
+		"target family compacted while it holds reference records (interrupted job not yet retried)",
+	}
+	have := map[string]bool{}
+	for _, c := range classes {
+		have[c] = true
+	}
+	for _, c := range need {
+		if !have[c] {
+			t.Fatalf("harness: the plan did not reach the class %q; classes: %v", c, classes)
+		}
+	}
 }
